@@ -51,6 +51,7 @@ Holds(name, c, ev, pos) ==
     [] name = "C07_DocBottom" -> C07_DocBottom(c, ev, pos)
     [] name = "C07_PageBottom" -> C07_PageBottom(c, ev, pos)
     [] name = "C07_DataTop" -> C07_DataTop(c, ev, pos)
+    [] name = "C07_DataTopModuloKnown" -> C07_DataTopModuloKnown(c, ev, pos)
     [] name = "C07_Interior" -> C07_Interior(c, ev, pos)
     [] name = "C08_RightEdge" -> C08_RightEdge(c, ev, pos)
     [] name = "C08_Proportional" -> C08_Proportional(c, ev, pos)
